@@ -19,7 +19,10 @@ CHECKS = {
          "construction, by wf_of_init), every delimiter and every string; proved by the refinement T0 from the trie-index "
          "model to the brute-force specification. The model is tied to /repo on every run by differential execution of "
          "parse_uri/compress/is_uri on overlap-lattice converters built three ways, and the Lean specification is "
-         "evaluated on the implementation's own answers.",
+         "evaluated on the implementation's own answers. C01_trie discharges the contract of StringTrie.longest_prefix_item the "
+         "converter model is written against: the character trie pytrie implements (Model/Trie.lean: nodes, value slots, the walk "
+         "remembering the last value seen) refines the dictionary contract for every history of assignments; the structural trie "
+         "is compared with the real converter.trie on every probe.",
     design="§7 C01", technique="Lean 4 theorem (refinement of the trie-index model to a brute-force longest-match spec) + model/implementation correspondence"),
  "C02": dict(
     text="Proof: C02_* state that expand splits at the first delimiter, resolves prefix or synonym (the empty prefix "
@@ -74,9 +77,10 @@ CHECKS = {
          "get_subconverter C09_sub_records (exactly the records with a prefix or synonym in P, well-formed) and C09_sub_expand "
          "(answers as the parent on kept prefixes, None otherwise), C09_priority (case-sensitive: every record of the first "
          "converter survives with its canonical prefix, canonical URI prefix and pattern, so every prefix known to c1 expands "
-         "as in c1) and C09_singleton (chain([c]) has c's records). Grouping and the case-insensitive separation are evaluated "
-         "on the implementation's outputs on every run (laws in harness/props/c09.py) and through the correspondence; they "
-         "follow from C09_wf + C05_shape but are not stated as separate theorems.",
+         "as in c1) and C09_singleton (chain([c]) has c's records). C09_grouping (every record of every input is contained, "
+         "CURIE prefixes and URI prefixes alike, in one record of the result) and C09_ci_separated (with case_sensitive=False no "
+         "two records of the result hold CURIE prefixes or URI prefixes equal up to case, for every folding function). The same "
+         "laws are evaluated on the implementation's outputs on every run.",
     design="§7 C09", technique="Lean 4 theorem (fold invariant over add_record steps) + model/implementation correspondence with planted overlaps"),
  "C10": dict(
     text="Proof at the aliasing level (Model/Heap.lean: Record objects behind references): C10_frame_chain and C10_frame_copy "
@@ -88,13 +92,15 @@ CHECKS = {
          "Record object with an input).",
     design="§7 C10", technique="Lean 4 theorem (frame theorems over a heap-of-records model, induction over follow-up histories) + history correspondence re-observing the inputs"),
  "C11": dict(
-    text="Proof (partial): C11_order_errors (only the four documented errors), C11_ordering_perm (each pair processed exactly "
+    text="Proof: C11_order_errors (only the four documented errors), C11_ordering_perm (each pair processed exactly "
          "once; the peel-off loop terminates), C11_skip_unknown, C11_uri_part (same number of records; the records correspond one "
          "to one with identical canonical URI prefix, URI-prefix synonyms and pattern: popped-index bookkeeping returns every "
-         "record exactly once), C11_step_known and C11_known_partial (every known prefix stays known for remappings without "
-         "hand-over chains). For transitive chains 'every known prefix stays known', and the 'applicable pair applied / clash "
-         "skipped' clauses, are decided by the Lean checker Spec.C11.ok evaluated on the implementation's records on every run "
-         "and by the correspondence with the full model of the ordering and the main loop; they are not theorems about the model.",
+         "record exactly once), C11_known (every CURIE prefix known before is known afterwards, at full strength: chains, partially "
+         "applicable chains, remappings onto synonyms - the ordering guarantees that the pair keyed by a handed-over prefix runs "
+         "before the pair handing it over, order_ordered), C11_applied (an applicable pair onto an unused prefix, value of no other "
+         "pair, makes the new prefix canonical for old's record) and C11_skipped (a pair aiming at a prefix of another, untouched "
+         "record leaves both records as they were), C11_skip_unknown. The same clauses are evaluated by the Lean checker "
+         "Spec.C11.ok on the implementation's records on every run.",
     design="§7 C11", technique="Lean 4 theorem (termination/permutation of the ordering, per-step invariants) + Lean spec checker on implementation output + model/implementation correspondence"),
  "C12": dict(
     text="Proof: C12_transitive_iff (TransitiveError iff some string is both key and value), C12_upgrade (for every record and "
@@ -120,21 +126,28 @@ CHECKS = {
          "sets and the pattern, for arbitrary content), C14_jsonld (the written context, plain or expanded, with or without "
          "synonyms, reads back to exactly the canonical pairs plus the synonyms), C14_shacl_literal / C14_shacl_entry (escaping "
          "then Turtle literal lexing is the identity for every string without '\"', LF, CR - in particular with backslashes - for "
-         "prefix, URI prefix and pattern), C14_tsv. Files are modelled at the level of what the reader's parser hands back; the "
-         "real writers and readers are run on real files for every case.",
+         "prefix, URI prefix and pattern), C14_tsv and C14_tsv_bytes (the text write_tsv puts on disk, through the byte-level model "
+         "of the csv dialect - Model/Csv.lean, csv_roundtrip: reading back what the writer wrote is the identity for every table "
+         "and every cell content - parses back to exactly the canonical pairs). JSON and Turtle files are modelled at the level "
+         "of what the reader's parser hands back; the real writers and readers are run on real files for every case, and the text "
+         "of every TSV file is compared character for character with the model.",
     design="§7 C14", technique="Lean 4 theorem (write/read inverse laws over a model of the formats) + round trips through real files"),
  "C15": dict(
     text="Proof: C15_roundtrip (print then from_curie is the identity for every separator-free prefix and every identifier, "
          "split at the first separator), C15_reject, C15_eq_pair / C15_eq_equiv / C15_eq_tuple (== is an equivalence on the "
          "pydantic classes depending only on the pair; a tuple equals only tuples), C15_hash, C15_lt_irrefl / _trans / "
-         "_trichotomy (strict lexicographic total order on the pair), C15_ctx (converter as validation context). JSON round "
-         "trip, frozen instances and write_triples / read_triples (.tsv, .tsv.gz) are exercised on every case, not modelled.",
+         "_trichotomy (strict lexicographic total order on the pair), C15_ctx (converter as validation context), C15_triples_bytes "
+         "(read_triples of the text write_triples writes gives back the same triples, for all identifiers incl. tabs, quotes, "
+         "newlines: through the csv model). JSON round trip, frozen instances, pickling / copying and .tsv.gz are exercised on "
+         "every case, not modelled; the text of every triples file is compared character for character with the model.",
     design="§7 C15", technique="Lean 4 theorem (algebraic laws of the reference model) + model/implementation correspondence on reference tuples, triples files"),
  "C16": dict(
     text="Proof: C16_pd / C16_pd_others and C16_file / C16_file_others (each bulk call is, row by row, the scalar function "
          "applied to the chosen cell, None becoming NA resp. an empty cell, every other cell, the header and the row order "
          "kept) and C16_atomic (an error result leaves the disk as it was: two-phase helper), for every scalar function, "
-         "table, column and position of the first failing row. The seven real bulk methods are compared, cell by cell, with "
+         "table, column and position of the first failing row; C16_file_bytes / C16_atomic_bytes state the same about the characters "
+         "on disk (Model/Files.lean: the file is parsed by the csv model, converted in memory, rewritten only on success; "
+         "csv_roundtrip), with csv_roundtrip_fails_with_newline_translation pinning the repaired defect F6. The seven real bulk methods are compared, cell by cell, with "
          "the scalar methods of the implementation itself; for files the bytes before/after are compared when the call raises.",
     design="§7 C16", technique="Lean 4 theorem (map-over-column and two-phase atomicity of the file helper) + correspondence on real data frames and files"),
  "C17": dict(
